@@ -37,7 +37,8 @@ Definition eps9 : bigQ := qfrac 1 1000000000.
 Definition run_dist (p : list (@op bigQ)) (cid : nat) (slos_backend : bool) (input : list Z) : sx :=
   sxRes sxPd
         (with_circuit p cid (fun c tot U =>
-           if negb (Nat.eqb (length input) (input_modes c)) then Err ValueError else
+           if negb (Nat.eqb (length input) (input_modes c)) then Err ModeMismatchError else
+           do _ <- st_validate input;
            do full <- add_heralds_to_state input (hd_of (c_in c));
            Ok (pdist_calc qops (if slos_backend then Slos else Permanent) eps9 (c_n c) (tot - c_n c) U
                           [(znat full, 1%bigQ)]))).
